@@ -126,7 +126,8 @@ def gen_sets(n, seed):
 class Built:
     """router built by the real code from rendered rules + what the oracle needs"""
 
-    def __init__(self, rules, flavour):
+    def __init__(self, rules, flavour, names=False):
+        self.routes = {}
         self.router = RadiRouter()
         self.accepted = []          # (spec, method, idx)
         self.rejected = []
@@ -140,7 +141,7 @@ class Built:
                 return (_idx, kw)
             handler.idx = idx
             try:
-                self.router.add(text, meth, handler)
+                self.routes[idx] = self.router.add(text, meth, handler, **({"name": "n%d" % idx} if names else {}))
             except (RouteError, RadiDictKeyError, AssertionError, re.error) as e:   # rejected registration: not part of the set
                 self.rejected.append((idx, "%s (%s: %s)" % (text, type(e).__name__, str(e).split("\n")[0])))
                 continue
@@ -240,6 +241,42 @@ def make_resolve(rules, flavour, N, ascii_only, method=GET, strict=False):
         return "path %r method %s: router %r, rule-by-rule semantics %r (rules %r)" % (
             path, method, got, a, built.rendered)
     return q, built
+
+
+def make_removed(rules, flavour, N, how, arg):
+    """the rule set after a removal: all rules are registered, then some are removed by one of the public spellings
+    (rule text, name, route object, 'prefix*'); resolution must be the one of the rules that remain"""
+    built = Built(rules, flavour, names=True)
+    if how == "prefix":
+        gone = {idx for spec, _m, idx in built.accepted if positions(spec).startswith(arg)}
+        built.router.remove("/" + arg + "*")
+    else:
+        gone = {arg}
+        if how == "rule":
+            built.router.remove(built.rendered[arg])
+        elif how == "name":
+            built.router.remove(name="n%d" % arg)
+        else:
+            built.router.remove(built.routes[arg])
+    assert gone
+    built.accepted = [a for a in built.accepted if a[2] not in gone]
+    built.groups = {}
+    for spec, meth, idx in built.accepted:
+        built.groups.setdefault(positions(spec), []).append((spec, meth, idx))
+
+    def q(path: str):
+        assume(len(path) <= N)
+        got = observe(built, path, GET)
+        a = oracle(built, path, GET, True)
+        if a[0] == "undetermined" or same(got, a):
+            cover(got[0])
+            return None
+        b = oracle(built, path, GET, False)
+        if b[0] == "undetermined" or same(got, b):
+            return None
+        return "after removing rule(s) %s by %s: path %r: router %r, rule-by-rule semantics of the remaining rules %r" % (
+            sorted(gone), how, path, got, a)
+    return q, sorted(gone)
 
 
 def make_wsgi(rules, flavour, N):
@@ -363,6 +400,20 @@ def queries(tier):
                                  built.rendered, N, " (< 128)" if asc else " (any code point)", m),
                              timeout=200 if not T else 600, family="resolve",
                              config={"rules": built.rendered, "accepted": [i for _, _, i in built.accepted]}))
+    removals = [("backtrack", "prefix", "a/b"), ("backtrack", "name", 0), ("split-wild", "prefix", "i/ne"), ("deep", "object", 1)]
+    if T:
+        removals += [("backtrack", "rule", 2), ("root-wild", "prefix", "a"), ("split-wild", "name", 2), ("lit-split", "prefix", "a"),
+                     ("deep", "prefix", "x/"), ("int", "object", 0)]
+    for tag, how, arg in removals:
+        rules = next((rs for t, rs, _ in HAND if t == tag), None)
+        if rules is None:
+            continue
+        fn, gone = make_removed(rules, 0, 5 if not T else 6, how, arg)
+        out.append(Q("removed/%s/%s-%s" % (tag, how, str(arg).replace("/", "_")), fn,
+                     "rule set %r registered, then rule(s) %r removed by %s; every path with <= %d code points"
+                     % (tag, gone, {"prefix": "remove('/%s*')" % arg, "rule": "remove(rule text)", "name": "remove(name=...)",
+                                    "object": "remove(route object)"}[how], 5 if not T else 6),
+                     timeout=200 if not T else 600, family="removed", config={"set": tag, "how": how, "arg": arg}))
     for tag in (["backtrack", "samepat"] if not T else ["backtrack", "samepat", "int", "re", "root-wild", "anon"]):
         rules = next(rs for t, rs, _ in HAND if t == tag)
         out.append(Q("wsgi/%s" % tag, make_wsgi(rules, 1, 4 if not T else 5),
